@@ -17,13 +17,14 @@ LEVEL_TEXT = ("Proof + correspondence: Coq theorems -- for every string and EVER
               "intListToNum and with the OS/2, hhea, head fields of compiled+reloaded TTF/OTF fonts for random subsets of "
               "present/absent attributes; `explicit_ok` is evaluated in Coq on the implementation's fields. Name-table strings, "
               "CFF top-dict strings, other OS/2/post fields and compile/save/reload totality for non-ASCII names are checked on "
-              "the implementation against an independent Python restatement (observed, not modelled).")
+              "the implementation against an independent Python restatement (observed, not modelled)."
+              " The name-table merge of a variable font's info override (InfoCompiler.setupTable_name) is TRANSLATED from /repo's source on every run (harness/name_from_source.py -> Generated/NameMergeGen.v), proved equal to the model of Info/NameMerge.v, and compared with the real method on random record lists; theorems for all record lists: the override's record wins, no record of a name the override writes survives from the default source, the predefined Windows-English names are exactly the override's, every other record is untouched, keys are distinct.")
 LEVEL_NOTE = ("Trusted: Coq kernel, hand models (correspondence-tested), constants reader, harness, unicodedata (NFKD is a section "
               "variable in the theorems and a per-case table in the correspondence). Float arithmetic of the fallbacks "
               "(upm*0.8, int(upm*1.2)) is modelled exactly; cases where IEEE evaluation differs from the exact value are dropped "
               "and counted. |italicAngle| <= 45 and metrics within int16 are the generator's notion of spec-valid, representable "
               "input.")
-TECHNIQUE = "Coq proofs (PostScript-name cleanliness for all decompositions, explicit-wins, derived-fits, bit packing; the metric fallbacks translated from source on every run and proved equal to the model and to the documented values) + vm_compute correspondence on compiled fonts"
+TECHNIQUE = "Coq proofs (PostScript-name cleanliness for all decompositions, explicit-wins, derived-fits, bit packing; the metric fallbacks and the variable-font name-table merge translated from source on every run and proved equal to their models / the documented values) + vm_compute correspondence on compiled fonts"
 IMPORTS = "From U2F Require Import Base.Prelude Geometry.Model Info.PSName Info.Fallback."
 RULE = ("(a) strings over ASCII incl. exception characters/spaces, Latin-1, NBSP and other Zs, full-width forms, CJK, Cyrillic, "
         "combining marks, C0/C1 controls, astral characters -> normalizeStringForPostscript (both allowSpaces) vs the Gallina "
@@ -71,7 +72,82 @@ def float_exact_ok(info):
     return int(f * 1.2) == math.floor(Fr(upm) * Fr(6, 5))
 
 
+def name_merge_section(ctx):
+    """InfoCompiler.setupTable_name on its own -- the merge of the override's name records into the default source's table -- on
+    random record lists, against the translation of the method (Generated/NameMergeGen.v, proved equal to Info/NameMerge.v).  The
+    method is called on a bare object whose two name tables are given; the base class's table builder (which would fill the
+    override's table from an info object) is replaced by a no-op for the duration of the call, inside this process only"""
+    from unittest import mock
+    from fontTools.ttLib import newTable
+    from fontTools.ttLib.tables._n_a_m_e import makeName
+    from ufo2ft.infoCompiler import InfoCompiler
+    from ufo2ft.outlineCompiler import BaseOutlineCompiler
+    rng = ctx.subrng("name-merge")
+    IDS, PLATS, STRS = [1, 2, 4, 6, 16, 17, 25, 255, 256, 257, 300], [(3, 1), (3, 10), (1, 0), (0, 4)], ["Fam", "Other", "Regular", "Bold", "", "x"]
+
+    def records(n):
+        out = []
+        for _ in range(n):
+            plat, enc = rng.choice(PLATS)
+            lang = rng.choice([0x409, 0x409, 0x409, 0x407, 0]) if plat == 3 else 0
+            out.append(((rng.choice(IDS), plat, enc, lang), rng.choice(STRS)))
+        return out
+    cases, meta = [], []
+    for i in range(ctx.budget(150, 1200)):
+        orig_r, temp_r = records(rng.randint(0, 9)), records(rng.randint(0, 6))
+        if i % 3 == 0 and orig_r:
+            # the override rewrites some of the default source's names: same key, the other Windows encoding, or not at all
+            for (k, v) in rng.sample(orig_r, min(3, len(orig_r))):
+                how = rng.random()
+                if how < 0.4:
+                    temp_r.append((k, rng.choice(STRS)))
+                elif how < 0.8 and k[1] == 3:
+                    temp_r.append(((k[0], 3, 11 - k[2] if k[2] in (1, 10) else 1, k[3]), rng.choice(STRS)))
+        tables = []
+        for recs in (temp_r, orig_r):
+            t = newTable("name"); t.names = [makeName(v, k[0], k[1], k[2], k[3]) for k, v in recs]; tables.append(t)
+        obj = InfoCompiler.__new__(InfoCompiler)
+        obj.otf, obj.orig_otf = {"name": tables[0]}, {"name": tables[1]}
+        case = {"override_records": jsonable(temp_r), "default_source_records": jsonable(orig_r)}
+        ctx.count(); ctx.klass("name merge: %s" % ("override touches the source's names" if i % 3 == 0 else "independent lists"))
+        try:
+            with mock.patch.object(BaseOutlineCompiler, "setupTable_name", lambda self: None):
+                InfoCompiler.setupTable_name(obj)
+            got = [((n.nameID, n.platformID, n.platEncID, n.langID), n.string) for n in tables[1].names]
+        except Exception as e:
+            ctx.spec_failure(case, "InfoCompiler.setupTable_name raised %s: %s\n%s" % (type(e).__name__, e, traceback.format_exc()[-800:]))
+            continue
+        if got != orig_r:
+            ctx.nontriv(("nm", i, ctx.scale))
+        g = lambda recs: G.lst([G.tup("(%s, %s, %s, %s)" % tuple(G.z(x) for x in k), G.s(v)) for k, v in recs], "(nkey * str)")
+        cases.append(G.tup(g(temp_r), g(orig_r), g(got)))
+        meta.append(dict(case, merged=jsonable(got)))
+        # the statement itself, on the real result: no name (id, platform, language) that the override writes keeps a record the
+        # override did not write; no predefined Windows-English name survives that the override does not yield
+        tkeys = {k for k, _ in temp_r}
+        ttriples = {(k[0], k[1], k[3]) for k in tkeys}
+        tlast = {}
+        for k, v in temp_r:
+            tlast[k] = v
+        for k, v in got:
+            if (k[0], k[1], k[3]) in ttriples and (k not in tkeys or tlast[k] != v):
+                ctx.spec_failure(dict(case, merged=jsonable(got), record=jsonable((k, v))), "the merged table carries %r = %r for a name the override writes as %r" % (
+                    k, v, sorted((kk, vv) for kk, vv in tlast.items() if (kk[0], kk[1], kk[3]) == (k[0], k[1], k[3]))))
+                break
+            if k[0] < 256 and k[1] == 3 and k[3] == 0x409 and k not in tkeys:
+                ctx.spec_failure(dict(case, merged=jsonable(got), record=jsonable((k, v))), "the merged table keeps the predefined Windows-English name %r = %r that the overridden info does not yield" % (k, v))
+                break
+    vals = ctx.coq_eval("From U2F Require Import Base.Prelude Info.NameMerge Generated.NameMergeGen.",
+                        "fun c : (list (nkey * str) * list (nkey * str) * list (nkey * str)) => let '(t, o, r) := c in "
+                        "(if ndict_eqb (tr_name_merge t o) r then 1 else 0) + (if ndict_eqb (name_merge t o) r then 2 else 0)", cases, chunk=150, tag="NameMerge")
+    for v, case in zip(vals, meta):
+        if v is not None and v != 3:
+            ctx.corr_mismatch(case, "the name table InfoCompiler.setupTable_name leaves differs from %s" % (
+                "the Gallina model name_merge (Info/NameMerge.v)" if not v & 2 else "the translation of the method (Generated/NameMergeGen.v)"))
+
+
 def explore(ctx):
+    name_merge_section(ctx)
     import ufo2ft
     from fontTools.ttLib import TTFont
     from ufo2ft.fontInfoData import normalizeStringForPostscript, intListToNum
